@@ -340,13 +340,22 @@ pub fn run_inst(inst: &str, script: &str) -> Option<String> {
         "filter" => {
             let (m, r) = (num(2)?, num(3)?);
             run::<i64, i64>(script, fi, mki, 0, |w| {
-                subscribe_to(Arc::new(filter(move |x: &i64| x.rem_euclid(m) == r)(w.puppet(Some(0)))))
+                subscribe_to(Arc::new(filter(move |x: &i64| {
+                    F_CALLS.fetch_add(1, Ordering::SeqCst);
+                    x.rem_euclid(m) == r
+                })(w.puppet(Some(0)))))
             })
         },
         "scan" => {
             let (b, s) = (num(2)?, num(3)?);
             run::<i64, i64>(script, fi, mki, 0, |w| {
-                subscribe_to(Arc::new(scan(move |a: i64, x: i64| (a * b + x).rem_euclid(SCAN_MOD), s)(w.puppet(Some(0)))))
+                subscribe_to(Arc::new(scan(
+                    move |a: i64, x: i64| {
+                        F_CALLS.fetch_add(1, Ordering::SeqCst);
+                        (a * b + x).rem_euclid(SCAN_MOD)
+                    },
+                    s,
+                )(w.puppet(Some(0)))))
             })
         },
         "skip" => {
@@ -361,11 +370,11 @@ pub fn run_inst(inst: &str, script: &str) -> Option<String> {
             let n = num(1)? as usize;
             run::<i64, i64>(script, fi, mki, 0, |w| subscribe_to(Arc::new(callbag::merge(members(w, n)))))
         },
-        "concat" => {
+        "concat" | "concatL" => {
             let n = num(1)? as usize;
             run::<i64, i64>(script, fi, mki, 0, |w| subscribe_to(Arc::new(callbag::concat(members(w, n)))))
         },
-        "combine" => match num(1)? {
+        "combine" | "combineL" => match num(1)? {
             1 => run::<i64, (i64,)>(script, |t| format!("[{}]", t.0), mki, 0, |w| subscribe_to(Arc::new(combine!(w.puppet(Some(0)))))),
             2 => run::<i64, (i64, i64)>(script, |t| format!("[{},{}]", t.0, t.1), mki, 0, |w| {
                 subscribe_to(Arc::new(combine!(w.puppet(Some(0)), w.puppet(Some(1)))))
@@ -422,7 +431,7 @@ pub fn replay_stdin() {
         }
         let (inst, script) = (parts[0], parts[1]);
         F_CALLS.store(0, Ordering::SeqCst);
-        let got = if inst == "flatten" { Some(crate::seq::run_flatten(script)) } else { run_inst(inst, script) };
+        let got = if inst == "flatten" || inst == "flattenL" { Some(crate::seq::run_flatten(script)) } else { run_inst(inst, script) };
         let got = got.map(|t| if COUNT_CALLS.load(Ordering::SeqCst) { format!("{t} #f={}", F_CALLS.load(Ordering::SeqCst)) } else { t });
         match got {
             Some(t) => writeln!(out, "{inst} | {script} | {t}").unwrap(),
